@@ -26,7 +26,9 @@ typedef __int128 i128;
 // ---------------------------------------------------------------- rng
 struct Rng {
   uint64_t s;
-  explicit Rng(uint64_t seed) : s(seed * 0x9E3779B97F4A7C15ULL + 0x1234567ULL) {}
+  // the seed is hashed so that streams of nearby seeds start at unrelated positions of the Weyl sequence
+  // (a linear seeding made them shifted copies of each other, which re-synchronised after a few rejections)
+  explicit Rng(uint64_t seed) { uint64_t z = seed + 0x9E3779B97F4A7C15ULL; z = (z ^ (z >> 30)) * 0xBF58476D1CE4E5B9ULL; z = (z ^ (z >> 27)) * 0x94D049BB133111EBULL; z ^= z >> 31; z = (z ^ (z >> 33)) * 0xFF51AFD7ED558CCDULL; s = z ^ (z >> 29) ^ 0x1234567ULL; }
   uint64_t next() {
     uint64_t z = (s += 0x9E3779B97F4A7C15ULL);
     z = (z ^ (z >> 30)) * 0xBF58476D1CE4E5B9ULL;
